@@ -246,4 +246,185 @@ theorem captureDyn_sound {d : DynPat} {path : List Char} {st : PathState} (hwf :
     · simp only [hnn]; exact hn
     · simp only [hnn, hvars]; exact hok
 
+/-! ### chained matching: a `Path` with `skip > 0` behaves like a fresh path on the rest -/
+
+/-- the state after a successful step, given the result `f` of the same step on a fresh path
+holding only the unprocessed rest -/
+def shiftState (st f : PathState) : PathState :=
+  { path := st.path, skip := st.skip + f.skip,
+    segments := st.segments ++ f.segments.map fun x => (x.1, st.skip + x.2.1, st.skip + x.2.2) }
+
+theorem dropBytes_blen : ∀ (n : Nat) (s : List Char), n ≤ blen s → blen (dropBytes n s) + n ≤ blen s
+  | 0, s, _ => by rw [dropBytes_zero]; omega
+  | n + 1, [], h => by simp [blen] at h
+  | n + 1, c :: cs, h => by
+    simp only [dropBytes, blen] at h ⊢
+    by_cases hc : c.utf8Size ≤ n + 1
+    · have := dropBytes_blen (n + 1 - c.utf8Size) cs (by omega)
+      omega
+    · have h0 : n + 1 - c.utf8Size = 0 := by omega
+      rw [h0, dropBytes_zero]; omega
+
+theorem unprocessed_blen (st : PathState) (hskip : st.skip ≤ blen st.path) :
+    blen st.unprocessed + st.skip ≤ blen st.path := by
+  unfold PathState.unprocessed
+  rw [Nat.min_eq_left hskip]
+  exact dropBytes_blen _ _ hskip
+
+theorem commit_shift (st : PathState) (u : List Char) (len : Nat) (vars : List (Name × Nat × Nat))
+    (hb : ∀ x ∈ vars, st.skip + x.2.2 < 65536 ∧ x.2.1 ≤ x.2.2) (hl : st.skip + asU16 len < 65536) :
+    commit st len vars = .matched (shiftState st { path := u, skip := asU16 len, segments := vars }) := by
+  unfold commit
+  rw [addSegments_eq st.skip vars hb]
+  have : addU16 st.skip (asU16 len) = some (st.skip + asU16 len) := by
+    unfold addU16; rw [if_pos hl]
+  simp only [this, shiftState]
+
+theorem lookupCap_mem : ∀ (caps : Caps) (n : Name) (s e : Nat), lookupCap n caps = some (s, e) →
+    (n, s, e) ∈ caps
+  | [], _, _, _, h => by simp [lookupCap] at h
+  | (n', s', e') :: rest, n, s, e, h => by
+    simp only [lookupCap] at h
+    by_cases hn : n' = n
+    · simp only [if_pos hn, Option.some.injEq, Prod.mk.injEq] at h
+      obtain ⟨h1, h2⟩ := h
+      subst hn h1 h2
+      simp
+    · simp only [if_neg hn] at h
+      exact List.mem_cons_of_mem _ (lookupCap_mem rest n s e h)
+
+theorem collectSegments_mem (caps : Caps) : ∀ (names : List Name) (vars : List (Name × Nat × Nat)),
+    collectSegments caps names = some vars →
+      ∀ x ∈ vars, ∃ s e, (x.1, s, e) ∈ caps ∧ x.2.1 = asU16 s ∧ x.2.2 = asU16 e
+  | [], vars, h => by
+    simp only [collectSegments, Option.some.injEq] at h; subst h; simp
+  | n :: rest, vars, h => by
+    simp only [collectSegments] at h
+    split at h
+    · cases h
+    · rename_i s e hl
+      split at h
+      · rename_i xs hc
+        injection h with h
+        subst h
+        intro x hx
+        rcases List.mem_cons.mp hx with rfl | hx
+        · exact ⟨s, e, lookupCap_mem caps n s e hl, rfl, rfl⟩
+        · exact collectSegments_mem caps rest xs hc x hx
+      · cases h
+
+/-- spans reported by a successful regex match lie inside the matched prefix -/
+theorem captures_bounds {d : DynPat} {u : List Char} {n : Nat} {caps : Caps}
+    (h : d.captures u = some (n, caps)) :
+    n ≤ blen u ∧ ∀ x ∈ caps, x.2.1 ≤ x.2.2 ∧ x.2.2 ≤ n := by
+  obtain ⟨m, rest, vals, hp, hl, _, hn, hc⟩ := captures_some h
+  have hok : SpansOk u n caps vals := by
+    have := spansOf_substr hl [] rest
+    simp only [List.nil_append, blen, Nat.zero_add] at this
+    rw [hp, hn, hc]; exact this
+  exact ⟨by rw [hn]; exact blen_le_of_append hp, spansOk_bounds hok⟩
+
+theorem captureDyn_shift (d : DynPat) (st : PathState) (hlen : blen st.path < 65536)
+    (hskip : st.skip ≤ blen st.path) :
+    (captureDyn d (fresh st.unprocessed) = .noMatch → captureDyn d st = .noMatch) ∧
+    (∀ f, captureDyn d (fresh st.unprocessed) = .matched f →
+      captureDyn d st = .matched (shiftState st f) ∧ f.skip ≤ blen st.unprocessed) := by
+  have hu := unprocessed_blen st hskip
+  cases hc : d.captures st.unprocessed with
+  | none =>
+    refine ⟨fun _ => (by unfold captureDyn; rw [hc]), ?_⟩
+    intro f hf
+    rw [captureDyn_fresh_none hc] at hf; cases hf
+  | some r =>
+    obtain ⟨n, caps⟩ := r
+    obtain ⟨vars, hv, hm⟩ := captureDyn_fresh_some hc
+    obtain ⟨hn, hb⟩ := captures_bounds hc
+    have hnn : asU16 n = n := asU16_of_lt (by omega)
+    refine ⟨fun h => (by rw [hm] at h; cases h), ?_⟩
+    intro f hf
+    rw [hm] at hf
+    injection hf with hf
+    subst hf
+    refine ⟨?_, by simp only [hnn]; exact hn⟩
+    unfold captureDyn
+    rw [hc]
+    simp only [hv]
+    apply commit_shift
+    · intro x hx
+      obtain ⟨s, e, hmem, h1, h2⟩ := collectSegments_mem caps _ vars hv x hx
+      have := hb _ hmem
+      simp only at this
+      rw [h1, h2, asU16_of_lt (by omega), asU16_of_lt (by omega)]
+      omega
+    · rw [hnn]; omega
+
+theorem findMatch_le (rd : ResourceDef) (path : List Char) (n : Nat)
+    (h : rd.findMatch path = some n) : n ≤ blen path := by
+  have dyn : ∀ d : DynPat, (d.captures path).map (·.1) = some n → n ≤ blen path := by
+    intro d hd
+    cases hc : d.captures path with
+    | none => rw [hc] at hd; cases hd
+    | some r =>
+      obtain ⟨n', caps⟩ := r
+      rw [hc] at hd
+      simp only [Option.map_some, Option.some.injEq] at hd
+      subst hd
+      exact (captures_bounds hc).1
+  unfold ResourceDef.findMatch at h
+  cases hpt : rd.patType with
+  | «static» p =>
+    rw [hpt] at h
+    obtain ⟨rest, hp, hn, _⟩ := (static_iff _ _ _ _).mp h
+    rw [hn]; exact blen_le_of_append hp
+  | dynamic d => rw [hpt] at h; exact dyn d h
+  | dynamicSet ds =>
+    rw [hpt] at h
+    simp only at h
+    split at h
+    · cases h
+    · split at h
+      · exact dyn _ h
+      · cases h
+
+/-! ### what `parse` guarantees -/
+
+theorem parse_ok {pattern : List Char} {isPrefix forceDynamic : Bool} {pt : PatType} {segs : List Seg}
+    (h : parse pattern isPrefix forceDynamic = .ok (pt, segs)) :
+    (pt = .static pattern ∧ forceDynamic = false) ∨
+    ∃ d, pt = .dynamic d ∧ d.segs = segs ∧ DynWF d ∧ d.names.length ≤ Consts.routerMaxDynamicSegments ∧
+      (d.suffix = .open ∨ d.suffix = (if isPrefix then Suffix.slashOrEos else Suffix.eos)) := by
+  unfold parse at h
+  split at h
+  · rename_i hc
+    injection h with h
+    injection h with h1 h2
+    left
+    refine ⟨h1.symm, ?_⟩
+    cases forceDynamic with
+    | false => rfl
+    | true => simp at hc
+  · split at h
+    · cases h
+    · rename_i acc unprocessed hasTail _
+      simp only at h
+      generalize finishSegs acc unprocessed hasTail = segs' at h
+      split at h
+      · cases h
+      · rename_i hlen
+        split at h
+        · cases h
+        · split at h
+          · cases h
+          · rename_i hdist
+            injection h with h
+            injection h with h1 h2
+            right
+            refine ⟨_, h1.symm, h2, ?_, ?_, ?_⟩
+            · simpa [DynWF, DynPat.names] using hdist
+            · simpa [DynPat.names] using hlen
+            · simp only
+              cases hasTail with
+              | true => left; rfl
+              | false => right; simp
+
 end ActixModel.C10
